@@ -221,6 +221,77 @@ def pre_l(pre):
     return '[' + ';'.join(out) + ']'
 
 
+def rf(c):
+    return 'true' if (c.get('first') or {}).get('k') == 'RemoveUseless' else 'false'
+
+
+def gen_pairs(rng, m, ops):
+    """(operation, earlier call on the same object)"""
+    out = []
+    by_kind = {}
+    for op in ops:
+        by_kind.setdefault(op['k'], []).append(op)
+    surf = [o for o in ops if o['k'] == 'Surface']
+    fac = by_kind.get('Facets', [])
+    for k, lst in by_kind.items():
+        op = rng.choice(lst)
+        if k == 'RemoveUseless' and 'subset' in m['var_modes']:
+            continue
+        out.append((op, op))                                  # the same call twice
+    for op in surf:
+        out.append((op, {'k': 'ExtractSurface'}))
+        out.append((op, {'k': 'Surface', 'remove': not op['remove']}))
+        if fac:
+            out.append((op, fac[0]))
+        out.append((op, {'k': 'ExtractFacets', 'remove_duplicates': True}))
+    for op in fac:
+        if surf:
+            out.append((op, surf[0]))
+        out.append((op, {'k': 'ExtractFacets', 'remove_duplicates': False}))
+    if 'subset' not in m['var_modes']:
+        for op in rng.sample(ops, min(2, len(ops))):
+            if op['k'] != 'RemoveUseless':
+                out.append((op, {'k': 'RemoveUseless'}))
+    cuts = [o for o in ops if o['k'] in ('CutEids', 'CutNids', 'ExtractIdx', 'CutType')]
+    for op in rng.sample(cuts, min(2, len(cuts))):
+        out.append((op, rng.choice([o for o in ops if o['k'] != 'RemoveUseless'])))
+    return out
+
+
+def adversarial_cases():
+    """shell meshes whose facets collide when a sorted row is packed into one 64-bit key with
+    base = max id + 1 (row2 = row1 + digits of 2**64 in that base): a row-wise unique keeps both"""
+    out = []
+    for width, base in ((4, 10 ** 6), (4, 70001), (3, 2642257), (3, 5 * 10 ** 6)):
+        digits, x = [], 2 ** 64
+        for _ in range(width):
+            digits.append(x % base)
+            x //= base
+        if x:
+            continue
+        digits.reverse()                       # most significant first
+        lo = [1, 2, 3, 4][:width]
+        # row1 ascending, row1 + digits ascending and below base
+        row1, prev1, prev2 = [], 0, 0
+        for d in digits:
+            v = max(prev1 + 1, prev2 + 1 - d, 1)
+            row1.append(v)
+            prev1, prev2 = v, v + d
+        row2 = [a + d for a, d in zip(row1, digits)]
+        if row2[-1] >= base - 1 or row1 == row2:
+            continue
+        row3 = [5, 6, 7, base - 1][-width:] if width == 4 else [6, 7, base - 1]
+        ids = sorted(set(row1 + row2 + row3))
+        t = T['quad'] if width == 4 else T['tri']
+        mesh = {'nodes': {'ids': ids[::-1], 'rows': [[i % 997, i % 13, 1] for i in ids[::-1]]},
+                'elems': [[t, [3, 1, 2], [row2[::-1], row1, row3]]],
+                'nodal': [[0, ids[::-1], [[i % 100003] for i in ids[::-1]], [1]]], 'elemental': [],
+                'kind': 'adversarial', 'idmode': 'large', 'var_modes': ['aligned'], 'n_extra': 0}
+        out.append((mesh, {'k': 'Facets'}))
+        out.append((mesh, {'k': 'Surface', 'remove': True}))
+    return out
+
+
 def gen_ops(rng, m):
     ops = []
     eids = [i for _, ids, _ in m['elems'] for i in ids]
@@ -468,6 +539,10 @@ def oracle(m, op, r):
         got = sorted(sorted(c) for _, c in rel.values())
         if got != sorted(r['boundary']):
             bad.append(('surface-facets-are-not-the-boundary-facets', None))
+    if k == 'Facets' and 'distinct_faces' in r:
+        got = sorted(sorted(c) for _, c in rel.values())
+        if got != sorted(r['distinct_faces']):
+            bad.append(('facets-are-not-the-distinct-faces-once-each', None))
     for f in r.get('flags', []):
         bad.append(('id-to-position-map', f))
     return bad
@@ -483,13 +558,16 @@ def signature(op, what, detail):
 # ------------------------------------------------------------------- main
 def main(ctx):
     quick = ctx.tier == 'quick'
-    n_mesh = 110 if quick else 600
+    n_mesh = 80 if quick else 450
     for p in lib.REPLAY.glob(PID + '_*.json'):
         p.unlink()
     ctx.rule = ('generated meshes (hex / prism / tet lattices, mixed, tet2, hex2, element soups, shells; '
                 'shuffled storage, dense/sparse/large ids, unreferenced nodes, nodal variables aligned / '
                 'shuffled / on a subset of nodes, elemental variables per type) x every extraction '
                 'operation with singleton / all / random-order subset / near-empty / missing selections; '
+                'every operation is also run as the second call on an object (same call twice, pairs with '
+                'extract_surface / to_surface / to_facets / remove_useless_nodes ...), facet lists for the model '
+                'taken from a fresh object; adversarial shell meshes whose facets collide under 64-bit key packing; '
                 'about a third of the cases run after the mesh was edited through nodes.update / nodal_data.update_data '
                 '(allow_overwrite=True on existing ids); a case is one (mesh, edits, operation); non-trivial = the operation returned a mesh; distinct = '
                 'distinct (mesh, operation, selection)')
@@ -538,15 +616,15 @@ def main(ctx):
     # cases: corpus, witnesses, generated
     meshes, cases = [], []
 
-    def add(m, op, origin, pre=None):
+    def add(m, op, origin, pre=None, first=None):
         if not meshes or meshes[-1] is not m:
             meshes.append(m)
         cases.append({'id': len(cases), 'mesh': m, 'mi': len(meshes) - 1, 'op': op, 'origin': origin,
-                      'pre': pre or []})
+                      'pre': pre or [], 'first': first})
     corpus_dir = lib.VERIF / 'corpus' / PID
     for p in sorted(corpus_dir.glob('*.json')) if corpus_dir.exists() else []:
         c = json.loads(p.read_text())
-        add(c['mesh'], c['op'], 'corpus:' + p.name, c.get('pre'))
+        add(c['mesh'], c['op'], 'corpus:' + p.name, c.get('pre'), c.get('first'))
     for flag, m, op in WITNESSES:
         add(m, op, 'witness:' + flag)
     for _ in range(n_mesh):
@@ -560,7 +638,13 @@ def main(ctx):
             for op in ops:
                 if op['k'] in ('Surface', 'Facets', 'RemoveUseless', 'FirstOrder') or ctx.rng.random() < 0.35:
                     add(m, op, 'random-after-update', pre)
-    res = run_impl(ctx, [{'id': c['id'], 'mesh': c['mesh'], 'op': c['op'], 'pre': c['pre']} for c in cases])
+        # repeated calls on the same object: every operation twice, and pairs
+        for op, first in gen_pairs(ctx.rng, m, ops):
+            add(m, op, 'random-second-call', None, first)
+    for m, op in adversarial_cases():
+        add(m, op, 'adversarial-packed-key')
+    res = run_impl(ctx, [{'id': c['id'], 'mesh': c['mesh'], 'op': c['op'], 'pre': c['pre'],
+                          'first': c['first']} for c in cases])
     herr = [r for r in res.values() if 'error' in r]
     if herr:
         ctx.log('harness errors:', len(herr), herr[0]['error'][-700:])
@@ -582,7 +666,7 @@ def main(ctx):
         ix, ch = ix_ch
         mis = sorted({c['mi'] for c in ch})
         defs = [f'Definition m{mi} : mesh row := {input_mesh_l(meshes[mi])}.' for mi in mis]
-        items = [f'({c["id"]}%nat, check cfg m{c["mi"]} {pre_l(c["pre"])} {op_l(c["op"], res[c["id"]])} {obs_l(res[c["id"]])})'
+        items = [f'({c["id"]}%nat, check cfg m{c["mi"]} {pre_l(c["pre"])} {rf(c)} {op_l(c["op"], res[c["id"]])} {obs_l(res[c["id"]])})'
                  for c in ch]
         return coq_check(ctx, f'Corr{ix}', defs, items)
     with ThreadPoolExecutor(max_workers=12) as ex:
@@ -601,8 +685,9 @@ def main(ctx):
     for c in usable:
         r, m = res[c['id']], c['mesh']
         ctx.count('op:' + OPNAME[c['op']['k']] + (':raised' if r['raised'] else ''))
+        ctx.count('earlier-call:' + (c['first']['k'] if c['first'] else 'none'))
         ctx.count('edited-before:' + ('+'.join(e['k'] for e in c['pre']) if c['pre'] else 'no'))
-        ctx.case([m['nodes'], m['elems'], m['nodal'], m['elemental'], c['pre'], c['op']], nontrivial=not r['raised'],
+        ctx.case([m['nodes'], m['elems'], m['nodal'], m['elemental'], c['pre'], c['first'], c['op']], nontrivial=not r['raised'],
                  sample={'mesh_kind': m['kind'], 'node_ids': m['nodes']['ids'][:8], 'op': c['op'],
                          'result_node_ids': (r.get('result') or {}).get('nodes', [])[:4]})
     for m in meshes:
@@ -627,7 +712,9 @@ def main(ctx):
                 sig['note'] = 'carried by id in the source, values differ nevertheless'
             if c['pre']:
                 sig['after_update_of'] = '+'.join(e['k'] for e in c['pre'])
-            ctx.violation('impl-violation', {'mesh': c['mesh'], 'pre': c['pre'], 'op': c['op']},
+            if c['first']:
+                sig['after_call_of'] = OPNAME.get(c['first']['k'], c['first']['k'])
+            ctx.violation('impl-violation', {'mesh': c['mesh'], 'pre': c['pre'], 'first': c['first'], 'op': c['op']},
                           'self-contained result; retained entities keep id, geometry and values',
                           {'what': what, 'detail': detail, 'result': r['result']},
                           'C09 oracle on the implementation', found_input=True, signature=sig,
@@ -645,14 +732,28 @@ def main(ctx):
                                   'values stay attached', 'C09_tree_decided', found_input=False,
                                   signature={'kind': 'witness-not-reproduced', 'flag': flag})
         ctx.notes['cfg_ok'] = all(cfg.values())
+    # an operation that answers on a fresh object but raises after an earlier call on the same
+    # object (the model has no state that the earlier call could change) is a failing input
+    for cid, codes in sorted(bad.items()):
+        c = cases[cid]
+        if 1 in codes and c['first'] and c['first']['k'] != 'RemoveUseless':
+            oracle_bad.add(cid)
+            ctx.violation('impl-violation', {'mesh': c['mesh'], 'pre': c['pre'], 'first': c['first'], 'op': c['op']},
+                          'the operation returns the same sub-mesh whatever was called before',
+                          {'raised': res[cid].get('raised'), 'first_raised': res[cid].get('first_raised')},
+                          'C09 correspondence (second call) / model is a function of the mesh', found_input=True,
+                          signature={'op': OPNAME[c['op']['k']], 'what': 'raises-after-an-earlier-call',
+                                     'after_call_of': OPNAME.get(c['first']['k'], c['first']['k'])},
+                          what=f"{OPNAME[c['op']['k']]} raises after {c['first']['k']} on the same object")
     for cid, codes in sorted(bad.items())[:6]:
         c = cases[cid]
-        ctx.violation('correspondence', {'mesh': c['mesh'], 'pre': c['pre'], 'op': c['op']},
+        ctx.violation('correspondence', {'mesh': c['mesh'], 'pre': c['pre'], 'first': c['first'], 'op': c['op']},
                       'model and implementation return the same mesh',
                       {'differs_in': [CODES.get(k, k) for k in codes], 'impl': res[cid]},
                       'correspondence C09 (Corr.check)', found_input=cid in oracle_bad,
                       signature={'kind': 'correspondence', 'op': OPNAME[c['op']['k']],
-                                 'differs_in': ','.join(str(k) for k in codes)},
+                                 'differs_in': ','.join(str(k) for k in codes),
+                                 'after_call_of': (c['first'] or {}).get('k')},
                       what='model and implementation differ')
     if compile_fail:
         ctx.violation('correspondence', {'files': compile_fail}, 'scratch files compile', 'coqc failed',
@@ -680,7 +781,8 @@ def replay(path):
         print('nothing to replay on the implementation:', json.dumps(rp, indent=1)[:3000])
         return 1
     pre = c.get('pre') or []
-    r = run_impl(ctx, [{'id': 0, 'mesh': c['mesh'], 'op': c['op'], 'pre': pre}], tag='replay')[0]
+    r = run_impl(ctx, [{'id': 0, 'mesh': c['mesh'], 'op': c['op'], 'pre': pre, 'first': c.get('first')}],
+                 tag='replay')[0]
     if 'error' in r:
         print(r['error'])
         return 1
@@ -691,7 +793,7 @@ def replay(path):
     badc = None
     if not ((c['op']['k'] == 'Surface' and 'surf' not in r) or (c['op']['k'] == 'Facets' and 'facets' not in r)):
         badc = coq_check(ctx, 'Replay', [f'Definition m0 : mesh row := {input_mesh_l(c["mesh"])}.'],
-                         [f'(0%nat, check cfg m0 {pre_l(pre)} {op_l(c["op"], r)} {obs_l(r)})'])
+                         [f'(0%nat, check cfg m0 {pre_l(pre)} {rf(c)} {op_l(c["op"], r)} {obs_l(r)})'])
     print('model vs implementation (codes):', badc)
     print('property', 'VIOLATED' if orc else 'holds', 'on this input')
     return 1 if orc or badc else 0
